@@ -105,6 +105,7 @@ func (vc *VC) atReturn(fr *frame, r *retInfo) {
 		rts = append(rts, v.T)
 	}
 	env := vc.contractEnv(con, vc.params, rts, r.st, vc.entry)
+	env.proving = true
 	for i, en := range con.Ensures {
 		t, err := env.trBool(en.E)
 		if err != nil {
@@ -130,14 +131,21 @@ func (vc *VC) retIndex(fr *frame, r *retInfo) int {
 	return -1
 }
 
-// frameObligations: nothing outside the modifies clause changed among pre-existing objects.
-func (vc *VC) frameObligations(fr *frame, r *retInfo, env *SEnv) {
+type elemPlace struct{ arr, lo, hi *Term }
+
+type framePlaces struct {
+	fields map[string][]*Term
+	elems  map[string][]elemPlace
+}
+
+// modifiesPlaces evaluates the modifies clause of the function under verification in its entry state.
+func (vc *VC) modifiesPlaces() *framePlaces {
+	if vc.places != nil {
+		return vc.places
+	}
 	con := vc.con
-	wm0 := vc.heapGet(vc.entry, "wm")
-	type fieldPlace struct{ ref *Term }
-	type elemPlace struct{ arr, lo, hi *Term }
-	fields := map[string][]*Term{}
-	elems := map[string][]elemPlace{}
+	fp := &framePlaces{fields: map[string][]*Term{}, elems: map[string][]elemPlace{}}
+	vc.places = fp
 	oldEnv := vc.contractEnv(con, vc.params, nil, vc.entry, vc.entry)
 	for _, m := range con.Modifies {
 		func() {
@@ -158,17 +166,50 @@ func (vc *VC) frameObligations(fr *frame, r *retInfo, env *SEnv) {
 				for i := 0; i < stt.NumFields(); i++ {
 					if stt.Field(i).Name() == m.Op {
 						key, _ := vc.fieldKey(p.Elem(), i)
-						fields[key] = append(fields[key], x.T)
+						fp.fields[key] = append(fp.fields[key], x.T)
 					}
 				}
 			case EIndex:
 				s := oldEnv.materialize(oldEnv.tr(m.X), nil)
 				sl := s.Go.Underlying().(*types.Slice)
 				key, _ := vc.elemKey(sl.Elem())
-				elems[key] = append(elems[key], elemPlace{vc.slArr(s.T), vc.slOff(s.T), vc.iAdd(vc.slOff(s.T), vc.slLen(s.T))})
+				fp.elems[key] = append(fp.elems[key], elemPlace{vc.slArr(s.T), vc.slOff(s.T), vc.iAdd(vc.slOff(s.T), vc.slLen(s.T))})
 			}
 		}()
 	}
+	return fp
+}
+
+// frameFormula: heap component k agrees with its entry value at (ref[, j]) unless the place is in the modifies clause.
+func (vc *VC) frameFormula(k string, st *State, ref, j *Term) *Term {
+	fp := vc.modifiesPlaces()
+	wm0 := vc.heapGet(vc.entry, "wm")
+	now := vc.heapGet(st, k)
+	was := vc.heapGet(vc.entry, k)
+	if now == was || (len(now.Args) == 0 && now.Op == was.Op) {
+		return nil
+	}
+	switch {
+	case strings.HasPrefix(k, "F!"), strings.HasPrefix(k, "P!"):
+		cs := []*Term{App(">=", SBool, ref, IntLit64(0)), App("<=", SBool, ref, wm0)}
+		for _, a := range fp.fields[k] {
+			cs = append(cs, Not(Eq(ref, a)))
+		}
+		return Implies(And(cs...), Eq(Select(now, ref), Select(was, ref)))
+	case strings.HasPrefix(k, "E!"):
+		cs := []*Term{App(">=", SBool, ref, IntLit64(0)), App("<=", SBool, ref, wm0)}
+		for _, p := range fp.elems[k] {
+			cs = append(cs, Not(And(Eq(ref, p.arr), vc.iCmp(">=", j, p.lo, true), vc.iCmp("<", j, p.hi, true))))
+		}
+		return Implies(And(cs...), Eq(Select(Select(now, ref), j), Select(Select(was, ref), j)))
+	case strings.HasPrefix(k, "G!"):
+		return Eq(now, was)
+	}
+	return nil
+}
+
+// frameObligations: nothing outside the modifies clause changed among pre-existing objects.
+func (vc *VC) frameObligations(fr *frame, r *retInfo, env *SEnv) {
 	keys := map[string]bool{}
 	for k := range r.st.heap {
 		keys[k] = true
@@ -182,35 +223,15 @@ func (vc *VC) frameObligations(fr *frame, r *retInfo, env *SEnv) {
 		if k == "wm" {
 			continue
 		}
-		now := vc.heapGet(r.st, k)
-		was := vc.heapGet(vc.entry, k)
-		if now == was || (len(now.Args) == 0 && now.Op == was.Op) {
-			continue
-		}
-		var cond *Term
-		switch {
-		case strings.HasPrefix(k, "F!"), strings.HasPrefix(k, "P!"):
-			ref := vc.fresh("fr!ref", SInt)
-			cs := []*Term{App(">=", SBool, ref, IntLit64(0)), App("<=", SBool, ref, wm0)}
-			for _, a := range fields[k] {
-				cs = append(cs, Not(Eq(ref, a)))
-			}
-			cond = Implies(And(cs...), Eq(Select(now, ref), Select(was, ref)))
-		case strings.HasPrefix(k, "E!"):
-			ref := vc.fresh("fr!ref", SInt)
-			j := vc.fresh("fr!idx", vc.idxSort())
-			cs := []*Term{App(">=", SBool, ref, IntLit64(0)), App("<=", SBool, ref, wm0)}
-			for _, p := range elems[k] {
-				cs = append(cs, Not(And(Eq(ref, p.arr), vc.iCmp(">=", j, p.lo, true), vc.iCmp("<", j, p.hi, true))))
-			}
-			cond = Implies(And(cs...), Eq(Select(Select(now, ref), j), Select(Select(was, ref), j)))
-		case strings.HasPrefix(k, "G!"):
-			cond = Eq(now, was)
-		default:
+		ref := vc.fresh("fr!ref", SInt)
+		j := vc.fresh("fr!idx", vc.idxSort())
+		cond := vc.frameFormula(k, r.st, ref, j)
+		if cond == nil {
 			continue
 		}
 		if o := vc.oblige("frame", r.st, cond, r.pos, "frame: "+k+" unchanged outside the modifies clause"); o != nil {
 			o.Name = fmt.Sprintf("%s#frame.%s@ret%d", vc.funcName(), strings.TrimPrefix(k, "F!"), vc.retIndex(fr, r))
+			o.RetSt = r.st
 		}
 	}
 }
@@ -357,6 +378,7 @@ func (eng *Engine) buildLemmaVC(lem *Contract) (vc *VC) {
 	}
 	vc.obls = append(vc.obls, &Obl{Name: vc.funcName() + "#vacuity.requires", Kind: "vacuity", Guard: TTrue, Cond: TTrue, NFacts: len(vc.facts), WantSat: true,
 		Desc: "lemma hypotheses are satisfiable"})
+	env.proving = true
 	for i, en := range lem.Ensures {
 		t, err := env.trBool(en.E)
 		if err != nil {
